@@ -72,7 +72,7 @@ impl PixelDataReader for RleLosslessAdapter {
             let fragment = &src
                 .fragment(i)
                 .whatever_context("No pixel data found for frame")?;
-            let mut offsets = read_rle_header(fragment);
+            let mut offsets = read_rle_header(fragment)?;
             offsets.push(fragment.len() as u32);
 
             for sample_number in 0..samples_per_pixel {
@@ -80,7 +80,7 @@ impl PixelDataReader for RleLosslessAdapter {
                     // ii is 1, 0, 3, 2, 5, 4 for the example above
                     // This is where the segment order correction occurs
                     let ii = sample_number * bytes_per_sample + byte_offset;
-                    let segment = &fragment[offsets[ii] as usize..offsets[ii + 1] as usize];
+                    let segment = rle_segment(fragment, &offsets, ii)?;
                     let buff = io::Cursor::new(segment);
                     let (_, decoder) = PackBitsReader::new(buff, segment.len())
                         .whatever_context("Failed to read RLE segments")?;
@@ -89,6 +89,12 @@ impl PixelDataReader for RleLosslessAdapter {
                         .take(rows as u64 * cols as u64)
                         .read_to_end(&mut decoded_segment)
                         .unwrap();
+                    ensure_whatever!(
+                        decoded_segment.len() == rows as usize * cols as usize,
+                        "RLE segment decodes to {} bytes, expected {}",
+                        decoded_segment.len(),
+                        rows as usize * cols as usize
+                    );
 
                     // Interleave pixels as described in the example above.
                     // in 16-bit, this is:
@@ -181,7 +187,7 @@ impl PixelDataReader for RleLosslessAdapter {
         let fragment = &src
             .fragment(frame as usize)
             .whatever_context("No pixel data found for frame")?;
-        let mut offsets = read_rle_header(fragment);
+        let mut offsets = read_rle_header(fragment)?;
         offsets.push(fragment.len() as u32);
 
         for sample_number in 0..samples_per_pixel {
@@ -189,7 +195,7 @@ impl PixelDataReader for RleLosslessAdapter {
                 // ii is 1, 0, 3, 2, 5, 4 for the example above
                 // This is where the segment order correction occurs
                 let ii = sample_number * bytes_per_sample + byte_offset;
-                let segment = &fragment[offsets[ii] as usize..offsets[ii + 1] as usize];
+                let segment = rle_segment(fragment, &offsets, ii)?;
                 let buff = io::Cursor::new(segment);
                 let (_, decoder) = PackBitsReader::new(buff, segment.len())
                     .map_err(|e| Box::new(e) as Box<_>)
@@ -199,6 +205,12 @@ impl PixelDataReader for RleLosslessAdapter {
                     .take(rows as u64 * cols as u64)
                     .read_to_end(&mut decoded_segment)
                     .unwrap();
+                ensure_whatever!(
+                    decoded_segment.len() == rows as usize * cols as usize,
+                    "RLE segment decodes to {} bytes, expected {}",
+                    decoded_segment.len(),
+                    rows as usize * cols as usize
+                );
 
                 // Interleave pixels as described in the example above.
                 // segments of a sample go from most to least significant byte,
@@ -222,11 +234,33 @@ impl PixelDataReader for RleLosslessAdapter {
 // TODO(#125) implement `encode`
 
 // Read the RLE header and return the offsets
-fn read_rle_header(fragment: &[u8]) -> Vec<u32> {
+fn read_rle_header(fragment: &[u8]) -> DecodeResult<Vec<u32>> {
+    // the header holds the number of segments and 15 offsets
+    ensure_whatever!(
+        fragment.len() >= 64,
+        "RLE fragment is too short ({} bytes) to hold a header",
+        fragment.len()
+    );
     let nr_segments = LittleEndian::read_u32(&fragment[0..4]);
+    ensure_whatever!(
+        nr_segments <= 15,
+        "Invalid number of RLE segments: {}",
+        nr_segments
+    );
     let mut offsets = vec![0; nr_segments as usize];
     LittleEndian::read_u32_into(&fragment[4..4 * (nr_segments + 1) as usize], &mut offsets);
-    offsets
+    Ok(offsets)
+}
+
+// Obtain the bytes of segment `ii` given the offsets from the header
+// (with the fragment length appended)
+fn rle_segment<'a>(fragment: &'a [u8], offsets: &[u32], ii: usize) -> DecodeResult<&'a [u8]> {
+    let (Some(&start), Some(&end)) = (offsets.get(ii), offsets.get(ii + 1)) else {
+        whatever!("RLE fragment does not have segment #{}", ii);
+    };
+    fragment
+        .get(start as usize..end as usize)
+        .with_whatever_context(|| format!("RLE segment #{ii} is outside the fragment"))
 }
 
 /// PackBits Reader from the image-tiff crate
